@@ -32,6 +32,8 @@ CLAIMED = {
             'equal sampling counters; discrete and dense time, sub-specifications, pastified specifications, reset before the first update'),
     'C11': ('6.C11', 'after each call the caller containers are compared with a structural snapshot on every path; repeated and interleaved calls are compared with '
             'solo runs by z3 for all values; the hash-seed clause is decided by enumerating seeds in sub-processes (stated as enumeration, not solver-decided)'),
+    'C12': ('6.C12', 'after symbolic evaluate()/update(), for every input variable and every assertion/sub-spec name z3 shows get_value(name) equals the supplied data '
+            '/ the result of a stand-alone (pastified) specification of that name, for all values; four monitor kinds'),
 }
 NA = {
     'C14': 'the quantifier ranges over strings and every string is consumed by the ANTLR4 ATN interpreter, which cannot be encoded or '
